@@ -479,7 +479,9 @@ package message
 //@ func getClassAdFromMessageWithMaxSize (m, maxSize, ctx) (result, err)
 //@   props C13
 //@   requires inv: [typeinv] msgInv(m)
+//@   let P0 = old(rdTotal) - old(viewLen(m))
 //@   loop 1 invariant budget: msgInv(m) && 0 <= totalBytesRead && (maxSize > 0 ==> totalBytesRead <= maxSize + 1)
+//@   loop 1 invariant progress: [C13] 0 <= i && (maxSize > 0 ==> i <= totalBytesRead) && (maxSize <= 0 ==> i <= (rdTotal - viewLen(m)) - P0 + 8)
 //@   assert before call Message).GetStringWithMaxSize #1 budget_expr: maxSize > 0 && 0 < arg2 && arg2 == maxSize - totalBytesRead
 //@   assert before call Message).getSecretStringWithMaxSize #1 budget_secret: maxSize > 0 && 0 < arg2 && arg2 == maxSize - totalBytesRead
 //@   assert before call Message).GetStringWithMaxSize #2 budget_mytype: maxSize > 0 && 0 < arg2 && arg2 == maxSize - totalBytesRead
@@ -493,6 +495,7 @@ package message
 //@ func parseAndInsertExpression (ad, exprStr) (err)
 //@   props C13 C08
 //@   assigns nothing
+//@   ensures rejects_empty: [C13] err == nil ==> len(exprStr) >= 1
 
 //@ func tryInsertLiteral (ad, attr, valueStr) (err)
 //@   props C13 C08
